@@ -15,7 +15,7 @@ import (
 // ---------------------------------------------------------------- REC.WORKLIST
 
 func init() {
-	register(&Rule{Name: "REC.WORKLIST", Props: []string{"C01"}, Floor: 2,
+	register(&Rule{Name: "REC.WORKLIST", Props: []string{"C01", "C11", "C13"}, Floor: 2,
 		Doc: "a work-list loop over reference edges that the text can close into a cycle (include, import) enters a module only after a lookup in a visited set said it is new, and enters it in that set",
 		Run: ruleRecWorklist})
 }
@@ -758,6 +758,39 @@ func ruleUnionErrMerge(c *Ctx) []Obligation {
 			obs = append(obs, bad(R, con, c.InstrPos(call), "the list of errors the member's resolution returns is not read: a bad restriction inside a union member goes unreported"))
 			continue
 		}
+		// the merge takes the errors over: an append whose element comes out of the returned list (or the whole list
+		// handed to append or to a merging function)
+		takes := false
+		eachInstr(res, func(in ssa.Instruction) {
+			ap, isC := in.(*ssa.Call)
+			if !isC || takes {
+				return
+			}
+			if isAppend(ap) {
+				if len(ap.Call.Args) == 2 && ap.Call.Args[1] == ssa.Value(call) {
+					takes = true
+				}
+				for _, e := range appendElems(ap) {
+					if ld, isL := e.(*ssa.UnOp); isL {
+						if ia, isIA := ld.X.(*ssa.IndexAddr); isIA && ia.X == ssa.Value(call) {
+							takes = true
+						}
+					}
+				}
+				return
+			}
+			if cal := ap.Call.StaticCallee(); cal != nil && c.isRepoFn(cal) && cal != res && isErrorSlice(ap.Type()) {
+				for _, a := range ap.Call.Args {
+					if a == ssa.Value(call) {
+						takes = true
+					}
+				}
+			}
+		})
+		if !takes {
+			obs = append(obs, bad(R, con, c.InstrPos(call), "the list the member's resolution returns is walked but none of its errors is appended to the list of the type: a bad restriction inside a union member goes unreported"))
+			continue
+		}
 		if merge == call.Block() || !blockReaches(call.Block(), outer, map[*ssa.BasicBlock]bool{merge: true}) {
 			obs = append(obs, ok(R, con, c.InstrPos(call), "every path from the member's resolution to the next member passes the merge of its errors"))
 		} else {
@@ -1361,9 +1394,25 @@ func ruleIDRefRestrict(c *Ctx) []Obligation {
 		if !isB || bo.Op != token.NEQ && bo.Op != token.EQL || found {
 			return
 		}
-		s1, is1 := constString(bo.X)
-		s2, is2 := constString(bo.Y)
-		if !(is1 && s1 == "builtin") && !(is2 && s2 == "builtin") {
+		// the comparison that tells the built-in identityref from a type derived from one: a variable that takes one
+		// of several constants (where the type was found), compared with one of them
+		isTag := func(v ssa.Value) bool {
+			phi, isP := v.(*ssa.Phi)
+			if !isP || len(phi.Edges) < 2 {
+				return false
+			}
+			for _, e := range phi.Edges {
+				if _, isK := e.(*ssa.Const); !isK {
+					if p2, isP2 := e.(*ssa.Phi); !isP2 || p2 == nil {
+						return false
+					}
+				}
+			}
+			return true
+		}
+		_, k1 := bo.X.(*ssa.Const)
+		_, k2 := bo.Y.(*ssa.Const)
+		if !(k1 && isTag(bo.Y)) && !(k2 && isTag(bo.X)) {
 			return
 		}
 		// only the test that stands in the identityref arm: some block it guards (or the arm after it) loads
@@ -1402,7 +1451,30 @@ func ruleIDRefRestrict(c *Ctx) []Obligation {
 				}
 				return t
 			}
-			if readsBase(builtin) == nil {
+			// which side is the built-in one: there a missing base is the error
+			nilIsError := func(nb *ssa.BinOp) bool {
+				if nb == nil {
+					return false
+				}
+				_, isEq, _ := nilTest(nb)
+				for _, rr := range refsOf(nb) {
+					if i2, isI := rr.(*ssa.If); isI {
+						nilSide := i2.Block().Succs[1]
+						if isEq {
+							nilSide = i2.Block().Succs[0]
+						}
+						if errorMadeUnder(nilSide, nil) {
+							return true
+						}
+					}
+				}
+				return false
+			}
+			switch {
+			case nilIsError(readsBase(builtin)):
+			case nilIsError(readsBase(derived)):
+				derived, builtin = builtin, derived
+			default:
 				continue // not the identityref arm
 			}
 			found = true
@@ -1816,8 +1888,59 @@ func ruleRPCKinds(c *Ctx) []Obligation {
 					continue
 				}
 				if call, isC := st.Val.(*ssa.Call); isC {
-					if cal := call.Call.StaticCallee(); cal != nil && (cal.Name() == "dup" || cal.Name() == "shallowDup") {
+					// a copy of the part that is already linked (the deep copier) keeps the kind it copies
+					copies := false
+					for _, a := range call.Call.Args {
+						operandClosure(a, func(x ssa.Value) {
+							if _, lf, _ := loadedField(x); lf == fPart {
+								copies = true
+							}
+						})
+						if _, lf, _ := loadedField(a); lf == fPart {
+							copies = true
+						}
+					}
+					if copies {
 						continue
+					}
+					// a constructor that is handed the kind: the constant at this call
+					if cal := call.Call.StaticCallee(); cal != nil && c.isRepoFn(cal) && cal.Blocks != nil {
+						viaParam := false
+						eachInstr(cal, func(in ssa.Instruction) {
+							ks, isS := in.(*ssa.Store)
+							if !isS {
+								return
+							}
+							_, f, kbase := fieldOf(ks.Addr)
+							if f != fKind || kbase == nil {
+								return
+							}
+							// of the object the constructor hands back
+							returned := false
+							eachInstr(cal, func(in2 ssa.Instruction) {
+								if rt, isR := in2.(*ssa.Return); isR && len(rt.Results) > 0 && rootOf(rt.Results[0]) == rootOf(kbase) {
+									returned = true
+								}
+							})
+							if !returned {
+								return
+							}
+							if p, isP := ks.Val.(*ssa.Parameter); isP {
+								if idx := paramIndex(cal, p); idx >= 0 && idx < len(call.Call.Args) {
+									if k, isK := constInt(call.Call.Args[idx]); isK && k == want[part.kind] {
+										viaParam = true
+									}
+								}
+							}
+							if k, isK := constInt(ks.Val); isK && k == want[part.kind] {
+								viaParam = true
+							}
+						})
+						if viaParam {
+							n++
+							obs = append(obs, ok(R, fmt.Sprintf("%s: the entry linked as rpc %s #%d is of kind %s", c.FnName(fn), lower(part.field), n, part.kind), c.InstrPos(st), "made by "+c.FnName(cal)+", which sets Kind to the constant it is handed here"))
+							continue
+						}
 					}
 				}
 				n++
